@@ -568,7 +568,8 @@ impl DirTourist {
 			return Visit::Skip;
 		}
 
-		if !self.filter.check_dir(&path) {
+		// the origin itself is never a candidate: patterns apply to what is inside it
+		if path != self.base && !self.filter.check_dir(&path) {
 			trace!(?path, "path is ignored, adding to skip list");
 			self.skip(path);
 			return Visit::Skip;
